@@ -158,6 +158,26 @@ pub fn run(ctx: &Ctx) -> Report {
     blocked.dof = 5;
     blocked.sign_corrections[5] = 0;
     robots.push(blocked);
+    // 5-DOF robots declared through a URDF description object (public dof field) and converted with parameters():
+    // the declaration must survive the conversion, and the solver built from it must behave as 5-DOF
+    let mut declared_lost: Vec<String> = Vec::new();
+    for src in [robots[0], robots[robots.len() / 2]] {
+        for j6_sign in [src.sign_corrections[5], 0] {
+            let mut signs = src.sign_corrections;
+            signs[5] = j6_sign;
+            let u = rs_opw_kinematics::urdf::URDFParameters {
+                a1: src.a1, a2: src.a2, b: src.b, c1: src.c1, c2: src.c2, c3: src.c3, c4: src.c4,
+                sign_corrections: signs, from: [0.0; 6], to: [0.0; 6], dof: 5,
+            };
+            let p = u.parameters(&src.offsets);
+            if p.dof != 5 {
+                declared_lost.push(format!("URDFParameters {{ dof: 5, .. }}.parameters() returns dof {}", p.dof));
+            }
+            let mut forced = p;
+            forced.dof = 5; // judged as the 5-DOF robot it was declared to be
+            robots.push(forced);
+        }
+    }
     let ax = theta_axes(thorough);
     let nst = 6usize;
     let sizes: Vec<usize> = [robots.len(), nst].into_iter().chain(ax.iter().map(|a| a.len())).collect();
@@ -235,8 +255,11 @@ pub fn run(ctx: &Ctx) -> Report {
     });
     rep.merge(srep);
     rep.set("threshold_sweep", json!({"ladder_values": lad.len(), "points": sn, "complete_outside": "1.05 x the 0.01 degree band"}));
+    for (i, d) in declared_lost.iter().enumerate() {
+        rep.fail("C06/declared-dof-lost/urdf-parameters".to_string(), n + 9_000_000 + i as u64, json!({"kind": "urdf-declared-dof"}), d.clone());
+    }
     rep.traces_validated = rep.transitions;
-    rep.rule = "robots R (dof 5 and 6, one with J6 sign 0) x stacks {bare, axial tool, z-shift tool, base, base>tool, tool>base} x theta lattice x \
+    rep.rule = "robots R (dof 5 and 6, one with J6 sign 0, four declared 5-DOF through a URDF description object and parameters()) x stacks {bare, axial tool, z-shift tool, base, base>tool, tool>base} x theta lattice x \
                 J6 alphabet {0,0.55,-3,pi,7.5,1e3} x entry points; oracle: tool point/axis through the stack's reference FK, J6 bit-equal to the \
                 caller's, originating J1..J5 present and answer list non-empty when the configuration is regular; history variant for the \
                 continuing entry points: previous = q already at the requested tool point, requested axis tilted by {0.35, -2.0} rad (soundness clauses only); \
@@ -248,6 +271,11 @@ pub fn run(ctx: &Ctx) -> Report {
 }
 
 pub fn replay(case: &Value) -> Vec<String> {
+    if case["kind"] == "urdf-declared-dof" {
+        let u = rs_opw_kinematics::urdf::URDFParameters { a1: 0.1, a2: 0.0, b: 0.0, c1: 0.5, c2: 0.6, c3: 0.5, c4: 0.1, sign_corrections: [1; 6], from: [0.0; 6], to: [0.0; 6], dof: 5 };
+        let p = u.parameters(&[0.0; 6]);
+        return if p.dof != 5 { vec![format!("C06/declared-dof-lost/urdf-parameters: parameters() returns dof {}", p.dof)] } else { vec![] };
+    }
     let c = Case::from_json(case);
     eval(&c).0.into_iter().map(|(k, d)| format!("{k}: {d}")).collect()
 }
